@@ -103,7 +103,7 @@ def random_systems(chk, n_sys, seed):
                 if solver != "LU" and k % 2 == (0 if trans else 1):
                     # warm start on a right-hand side of small magnitude: a guess 20% off the solution must be iterated on, the
                     # returned vector may not be worse than 10x the cold-start residual (relative) or 2e-2 |b|
-                    bs = b * 1e-6
+                    bs = b * (1e-6 if (k // 2) % 2 == 0 else 1e3)       # ... and of large magnitude
                     try:
                         exact = np.linalg.solve(Ae, bs)
                         cold = ls.solve(bs, trans=trans)
